@@ -168,7 +168,8 @@ def scenario(family, ntp, first_tp=0, parallel=None, n_cpu=None):
     """input of a family with the time points first_tp .. first_tp + ntp - 1.
     Besides the model options the families differ in
       fuel     power_scaling_factor = 0.8 (no total_power normalisation), power
-               files shared between time points (see power_index);
+               files shared between time points (see power_index), assemblies
+               numbered from 0 in the power files;
       hotspot  boundary condition OUTLET_TEMP (flow rate derived from the power
                of the time point);
       core2    one assembly with DELTA_TEMP, two with FLOWRATE;
@@ -235,6 +236,7 @@ def scenario(family, ntp, first_tp=0, parallel=None, n_cpu=None):
     scn['power'] = {'asm': asm, 'timepoints': len(dist)}
     if family == 'fuel':
         scn['power']['scaling'] = 0.8
+        scn['power']['base0'] = True       # and its files number the assemblies from 0
     # one entry per time point; several time points may name one file
     scn['user_power'] = ['power_%d.csv' % dist.index(i) for i in idx]
     if mats:
